@@ -1,6 +1,7 @@
 """symx.run -- path exploration, the per-case test context ``T`` (symbolic and concrete
 modes), failure records and replay."""
 import json
+from fractions import Fraction
 import math
 import os
 import sys
@@ -121,6 +122,11 @@ class T:
             if positive:
                 for v in a.flat:
                     C.assume.append(v.n > 0)
+            if lo is not None and hi is not None:
+                # bounded input: range assumption, and a shadow point inside the range
+                for v in a.flat:
+                    v.sh = float(lo) + C.rng.uniform(0.15, 0.85) * (float(hi) - float(lo))
+                    C.assume.append(z3.And(v.n >= core.R.lift(lo).t, v.n <= core.R.lift(hi).t))
             self.inputs[name] = a
             return a.copy()
         if name in self.values:
@@ -209,6 +215,14 @@ class T:
                     ok = False
                     self.unknown += 1
                     self.notes.append(f'{lab}: solver unknown')
+                    # the solver could neither prove nor refute: if the two sides differ at the concolic shadow point,
+                    # that point is a candidate witness -- it only counts if the float replay reproduces it
+                    sa, sb = getattr(a, 'sh', None), getattr(b, 'sh', None)
+                    if isinstance(b, (int, float, Fraction)):
+                        sb = float(b)
+                    if sa is not None and sb is not None and sa == sa and sb == sb and not _feq(sa, sb, 1e-4):
+                        self._fail(lab, key, 'value', f'solver unknown; sides differ at the shadow point: got {sa!r} want {sb!r}',
+                                   'shadow')
                 if self.consts:
                     self.records.append((lab, _tofloat(a)))
             else:
@@ -273,7 +287,9 @@ class T:
     def _fail(self, label, key, kind, detail, model):
         vals = {}
         if self.symbolic and not self.consts:
-            if model is None and C.path:
+            if model == 'shadow':
+                model = None
+            elif model is None and C.path:
                 # obligation decided without the solver (constants on a forked path): witness = model of the path condition
                 pc = C.pc()
                 try:
